@@ -419,8 +419,241 @@ def features_body(ctx):
     return body
 
 
+# ---- (c) what it takes to become "verified": the real _should_drop_peer against generated remotes ----
+
+OUR_HEIGHT = 100
+METHODS = ['server.version', 'blockchain.headers.subscribe', 'blockchain.block.header',
+           'server.features', 'server.peers.subscribe']
+HOFFS = [0, 0, 1, -1, 5, -5, 6, -6, 40, None]
+
+
+def our_header(height, fork=False):
+    import hashlib
+    unit = hashlib.sha256(b'%s%d' % (b'fork' if fork else b'ours', height)).digest()
+    return (unit * 3)[:80]
+
+
+class VerifyDB:
+    class state:
+        height = OUR_HEIGHT
+
+    async def raw_header(self, height):
+        import asyncio
+        await asyncio.sleep(0)
+        return our_header(height)
+
+
+def conformant(d):
+    return (d['connect'] == 0 and d['version'] == 0 and HOFFS[d['hoff']] is not None
+            and abs(HOFFS[d['hoff']]) <= 5 and d['header'] == 0 and d['features'] == 0
+            and d['peers'] in (0, 3) and not any(d['err']))
+
+
+def semantic_failure(d):
+    hoff = HOFFS[d['hoff']]
+    return (d['version'] != 0 or hoff is None or abs(hoff) > 5 or d['header'] != 0
+            or d['features'] != 0 or d['peers'] in (1, 2))
+
+
+class FakeRemote:
+    '''What connect_rs(...) gives _should_drop_peer: an async context manager yielding a session
+    whose answers (and their order of arrival) follow the generated descriptor.'''
+
+    def __init__(self, desc, host, ip, log):
+        self.d, self.host, self.ip, self.log = desc, host, ip, log
+        self.sent_request_timeout = None
+
+    async def __aenter__(self):
+        if self.d['connect']:
+            raise ConnectionRefusedError('refused')
+        return self
+
+    async def __aexit__(self, *exc):
+        return False
+
+    def remote_address(self):
+        from aiorpcx import NetAddress
+        return NetAddress(self.ip, 50001)
+
+    async def send_request(self, method, args=()):
+        import asyncio
+        from aiorpcx import RPCError, TaskTimeout
+        d = self.d
+        self.log.append(method)
+        if method == 'server.add_peer':
+            return True
+        m = METHODS.index(method)
+        await asyncio.sleep(d['lat'][m])
+        err = d['err'][m]
+        if err == 1:
+            raise RPCError(-32603, 'remote error')
+        if err == 2:
+            raise TaskTimeout(30)
+        if err == 3:
+            raise ConnectionResetError('lost')
+        if method == 'server.version':
+            return [['ElectrumX 1.20', '1.4'], 'ElectrumX 1.20', ['ElectrumX', '1.4', 'x'],
+                    ['ElectrumX', 14]][d['version']]
+        if method == 'blockchain.headers.subscribe':
+            hoff = HOFFS[d['hoff']]
+            return {'hex': '00' * 80, 'height': '100' if hoff is None else OUR_HEIGHT + hoff}
+        if method == 'blockchain.block.header':
+            height = args[0]
+            return [our_header(height).hex(), our_header(height, True).hex(), 17][d['header']]
+        if method == 'server.features':
+            good = {'hosts': {self.host: {'tcp_port': 50001, 'ssl_port': 50002}},
+                    'genesis_hash': BitcoinSV.GENESIS_HASH, 'protocol_min': '1.4',
+                    'protocol_max': '1.4', 'server_version': 'ElectrumX 1.20'}
+            if d['features'] == 1:
+                good['genesis_hash'] = '00' * 32
+            elif d['features'] == 2:
+                good['hosts'] = {'other.example.net': {'tcp_port': 50001}}
+            elif d['features'] == 3:
+                return [good]
+            return good
+        if method == 'server.peers.subscribe':
+            entry = ['8.8.4.4', 'known.example.net', ['v1.4', 't50001', 's50002']]
+            return [[entry], [['8.8.4.4', 'x']], {'peers': [entry]},
+                    [entry, ['9.9.4.4', 'fresh.example.net', ['v1.4', 't50001']]]][d['peers']]
+        raise AssertionError(method)
+
+
+REMOTE = st.fixed_dictionaries({
+    'connect': st.sampled_from([0, 0, 0, 0, 1]),
+    'version': st.sampled_from([0] * 9 + [1, 2, 3]),
+    'hoff': st.sampled_from([0] * 6 + list(range(len(HOFFS)))),
+    'header': st.sampled_from([0] * 4 + [1, 1, 2]),
+    'features': st.sampled_from([0] * 7 + [1, 2, 3]),
+    'peers': st.sampled_from([0] * 5 + [3, 3, 1, 2]),
+    'err': st.lists(st.sampled_from([0] * 12 + [1, 2, 3]), min_size=5, max_size=5),
+    'lat': st.lists(st.integers(0, 3), min_size=5, max_size=5),
+})
+VERIFY_CASE = st.fixed_dictionaries({
+    'kind': st.sampled_from(['name', 'name', 'pub4']),
+    'prior': st.sampled_from([0, 0, 1, 2]),        # never / recently good / stale
+    'mate': st.sampled_from([0, 0, 0, 0, 1]),       # a recent good peer at the same address
+    'attempts': st.lists(REMOTE, min_size=1, max_size=4),
+    'rseed': st.integers(0, 2 ** 31),
+})
+
+
+def run_verify(case):
+    from pbt.simloop import run_sim
+    env = make_env('tcp://my.example.com:50001')
+    peers_mod.time = FakeTime
+    random.seed(case['rseed'])
+    pm = peers_mod.PeerManager(env, VerifyDB())
+    host = 'peer1.example0.org' if case['kind'] == 'name' else '8.8.0.2'
+    ip = '8.8.0.2'
+    prior = [0, NOW - 60, NOW - STALE - 10][case['prior']]
+    peer = Peer(host, {'hosts': {host: {'tcp_port': 50001, 'ssl_port': 50002}}}, 'peer',
+                last_good=prior)
+    peer.retry_event = peers_mod.Event()
+    pm.peers.add(peer)
+    known = Peer('known.example.net', {'hosts': {'known.example.net': {'tcp_port': 50001}}}, 'x')
+    pm.peers.add(known)
+    if case['mate']:
+        mate = Peer('mate.example.org', {'hosts': {'mate.example.org': {'tcp_port': 50001}}},
+                    'peer', ip_addr=ip, last_good=NOW - 30)
+        pm.peers.add(mate)
+    descs = case['attempts']
+    log, used = [], []
+
+    def fake_connect(h, port, session_factory=None, **kwargs):
+        if h != host:
+            return FakeRemote({'connect': 1}, h, ip, [])
+        d = descs[min(len(used), len(descs) - 1)]
+        used.append(d)
+        return FakeRemote(d, host, ip, log)
+
+    real_connect = peers_mod.connect_rs
+    peers_mod.connect_rs = fake_connect
+    out = {}
+
+    async def main(loop):
+        import asyncio
+        try:
+            await pm._should_drop_peer(peer)
+        except asyncio.CancelledError:
+            # a timed-out request's CancelledError-derived exception escaped: the peer's monitor
+            # task would end; what is advertised afterwards is judged all the same
+            out['escaped'] = True
+        out['plain'] = pm.on_peers_subscribe(False)
+        out['tor'] = pm.on_peers_subscribe(True)
+
+    try:
+        run_sim(main, vt_deadline=10_000, max_iterations=200_000)
+    finally:
+        peers_mod.connect_rs = real_connect
+    advertised = any(t[1] == host for t in out['plain'] + out['tor'])
+    # sequential reading of the attempts that were made
+    expect, ambiguous = 'unverified', False
+    for d in used:
+        transient = d['connect'] == 1 or any(d['err'])
+        if case['mate'] and d['connect'] == 0:
+            # the verify-time bucket rule (one recent good peer per address) is the code's own
+            # housekeeping, not part of the property: whatever it decides is not judged
+            expect = 'unjudged'
+            break
+        if conformant(d):
+            expect = 'good'
+            break
+        if semantic_failure(d) and not transient:
+            expect = 'bad'
+            break
+        if semantic_failure(d) and d['connect'] == 0:
+            ambiguous = True        # which of a failed check and a lost request is seen first
+    info = {'expect': expect, 'ambiguous': ambiguous, 'attempts': len(used),
+            'advertised': advertised, 'requests': len(log), 'escaped': out.get('escaped', False),
+            'slow_header_check': any(d['header'] == 1 and d['connect'] == 0
+                                     and d['lat'][1] + d['lat'][2] > max(d['lat'][3], d['lat'][4])
+                                     for d in used)}
+    newly = peer.last_good == NOW
+    if newly and not any(conformant(d) for d in used):
+        why = [k for d in used for k in ('version', 'header', 'features', 'peers')
+               if d[k] != 0 and not (k == 'peers' and d[k] == 3)]
+        return (f'{host} is recorded as verified now although no connection passed every check '
+                f'(failed: {sorted(set(why)) or "height/transport"}); advertised={advertised}',
+                'verify_unearned', info)
+    if expect == 'bad' and not ambiguous:
+        if advertised:
+            return (f'{host} failed a verification check yet is advertised '
+                    f'(bad={peer.bad}, last_good-now={peer.last_good - NOW})', 'verify_failed_adv',
+                    info)
+        if not peer.bad:
+            return f'{host} failed a verification check but is not marked bad', 'verify_not_bad', info
+    if advertised and not (newly or (prior == NOW - 60 and not peer.bad)):
+        return f'{host} advertised without a recent verification', 'verify_adv', info
+    return None, None, info
+
+
+def verify_body(ctx):
+    def body(case):
+        msg, sig, info = run_verify(case)
+        classes = ['verify', 'verify.expect_' + info['expect']]
+        if info['ambiguous']:
+            classes.append('verify.ambiguous')
+        if info['attempts'] > 1:
+            classes.append('verify.several_connections')
+        if info['slow_header_check']:
+            classes.append('verify.header_mismatch_arrives_last')
+        if info['escaped']:
+            classes.append('verify.timeout_escaped_as_cancellation')
+        if info['expect'] == 'good' and not info['advertised']:
+            classes.append('verify.conformant_not_advertised')
+        ctx.record(case=case, nontrivial=info['requests'] >= 4 and info['expect'] != 'unverified',
+                   classes=classes,
+                   sample={'check': 'c19.verify', 'expect': info['expect'],
+                           'attempts': info['attempts'], 'advertised': info['advertised'],
+                           'first_remote': case['attempts'][0]})
+        if msg:
+            raise Violation(msg, sig)
+    return body
+
+
 def run(ctx):
-    hyp_run(ctx, 'c19.population', POP_CASE, pop_body(ctx), ctx.pick(600, 20000), frac=0.5)
+    hyp_run(ctx, 'c19.population', POP_CASE, pop_body(ctx), ctx.pick(600, 20000), frac=0.4)
+    hyp_run(ctx, 'c19.verify', VERIFY_CASE, verify_body(ctx), ctx.pick(400, 40000), frac=0.5)
     hyp_run(ctx, 'c19.features', FEATURES, features_body(ctx), ctx.pick(2500, 80000))
 
 
@@ -429,6 +662,8 @@ def replay(ctx, check, case):
         msg, sig, _ = run_population(case)
     elif check == 'c19.features':
         msg, sig, _ = check_features(case)
+    elif check == 'c19.verify':
+        msg, sig, _ = run_verify(case)
     else:
         raise AssertionError(check)
     return (msg, sig) if msg else None
